@@ -96,6 +96,9 @@ PROFILE = {
     'subsampling': [1, 1, 2],
     'poison': 0.0,
     'more_runs': 0.12,
+    # columns that the construction flags can act on are generated more often than in the other profiles
+    'colopts': {'kind': ['lowcard', 'lowcard', 'lowcard', 'midcard', 'id', 'constant', 'sparse', 'numeric', 'numeric', 'noisy-label', 'balanced-binary',
+                         'multi', 'multi', 'multi', 'numeric-spellings']},
 }
 
 
